@@ -513,6 +513,41 @@ def userdata_clones(fb, rep):
     rep.floor(R, "Userdata::deep_clone overrides", n, 2)
 
 
+def foreign_thread_roots(fb, rep):
+    """E4f: a primitive that is handed *another* thread (a RootedThread argument) and roots a value of the calling thread in it
+    (`Getable::from_value(&that_thread, value)` registers the value in that thread's rooted_values) must first move the value into
+    that thread's heap with `that_thread.deep_clone_value(caller, value)`: the two threads may be siblings, whose collectors mark
+    and sweep independently (a sibling's mark phase even leaves stale mark bits on the foreign objects it reaches, so the owner's
+    next collection skips them and frees what they point to)."""
+    R = "E4f"
+    rep.rule(R, "a value rooted in a thread that was passed in as an argument has been deep-cloned into that thread first")
+    n = 0
+    for b in fb.bodies.values():
+        if b.crate.name != "gluon_vm" or b.kind != "fn":
+            continue
+        argc = b.get("argc") or 0
+        tparams = [i for i in range(1, argc + 1) if "RootedThread" in b.local_tstr(i) and "Function" not in b.local_tstr(i) and "WithVM" not in b.local_tstr(i)]
+        if not tparams:
+            continue
+        for c in b.calls():
+            if not (c.res.endswith("::from_value") or c.res.endswith("::root_value")) or len(c.args) < 2:
+                continue
+            t_src = flow.sources(b, c.args[0], depth=10)
+            if not any(("arg", p) in t_src for p in tparams):
+                continue
+            n += 1
+            v_src = flow.sources(b, c.args[1], depth=12)
+            cloned = False
+            for d in _dcv_calls(b):
+                if any(("arg", p) in flow.sources(b, d.args[0], depth=10) for p in tparams) and d.dest is not None and flow.has_call(v_src, _is_dcv):
+                    cloned = True
+            if cloned:
+                rep.ok(R, "%s: the value rooted in the thread argument comes from <that thread>.deep_clone_value(..)" % b.id)
+            else:
+                rep.violation(R, "foreign-root-unclone|%s" % b.id, "%s roots a value of the calling thread in the thread it was handed without deep-cloning it into that thread's heap" % b.id, c.where())
+    rep.floor(R, "values rooted in a thread argument", n, 1)
+
+
 def cloner_heap_pairing(fb, rep):
     """E4e: a mutable cell lives in the heap its stores go to.
 
